@@ -209,6 +209,10 @@ func OpenWalletPub(node *Node, dir string, cfg *config.Config, pubPass string) (
 	return w, nil
 }
 
+// BindPoints makes this instance the receiver of the hook points again (the hook is one per process:
+// starting another instance takes it; call this after that other instance has been stopped).
+func (w *Wallet) BindPoints() { masswallet.SetVerifPointHook(w.Points.hit) }
+
 // Start runs WalletManager.Start (catch-up + goroutines).
 func (w *Wallet) Start() error {
 	masswallet.SetVerifPointHook(w.Points.hit)
